@@ -447,6 +447,7 @@ type Worker struct {
 	tt      *TermTable
 	solver  *Solver
 	inc     *IncSession
+	local   *[][]Decision // when set, forks go to this local queue (summaries)
 	interp  *interpreter
 	verbose bool
 	unknownBranches int
@@ -454,6 +455,10 @@ type Worker struct {
 }
 
 func (w *Worker) push(c *Case, prefix []Decision) {
+	if w.local != nil {
+		*w.local = append(*w.local, prefix)
+		return
+	}
 	e := w.e
 	e.mu.Lock()
 	e.queue = append(e.queue, job{c, prefix})
